@@ -28,14 +28,15 @@ EventMatches(x, y) ==
 
 (* exact sequence; if an operation with an unspecified outcome occurred and  *)
 (* the formula ended in an error, a prefix of the expected sequence           *)
-EventsOK(o) == LET r == Ev(o.ast, o.env) IN
-  /\ Len(o.events) <= Len(r.ev)
-  /\ \A i \in 1..Len(o.events) : EventMatches(r.ev[i], o.events[i])
-  /\ (Len(o.events) = Len(r.ev) \/ (r.may /\ o.out.err # ""))
+EventsOK(o) == LET r == Ev(o.ast, o.env)
+                   pe == Pub(r.ev) IN
+  /\ Len(o.events) <= Len(pe)
+  /\ \A i \in 1..Len(o.events) : EventMatches(pe[i], o.events[i])
+  /\ (Len(o.events) = Len(pe) \/ (r.may /\ o.out.err # ""))
 
 CallsOK(o) ==
   LET r == Ev(o.ast, o.env)
-      cust == SelectSeq(r.ev, LAMBDA x : x.k = "fn" /\ x.name \in DOMAIN o.env.funcs)
+      cust == CustomCalls(r.ev, o.env)
   IN /\ Len(o.calls) <= Len(cust)
      /\ (Len(o.calls) = Len(cust) \/ (r.may /\ o.out.err # ""))
      /\ \A i \in 1..Len(o.calls) :
